@@ -178,7 +178,7 @@ func c07Judge(rule string, objs []*AV) (what string, detail string) {
 		func() {
 			defer func() {
 				if r := recover(); r != nil {
-					what, detail = "a panic escaped Reset", fmt.Sprint(r)
+					what, detail = "a panic escaped Reset", panicText(r)
 				}
 			}()
 			ev.Reset()
@@ -959,7 +959,7 @@ func childConc() {
 func rulesEvaluateNoLog(rule string, obj map[string]interface{}) (v bool, e string, esc string) {
 	defer func() {
 		if r := recover(); r != nil {
-			esc = fmt.Sprint(r)
+			esc = panicText(r)
 			e = "escaped"
 		}
 	}()
